@@ -46,7 +46,7 @@ type propDef struct {
 	Units          []unit
 }
 
-var allPasses = []string{"simsync", "simatomic", "detrange", "chanyield"}
+var allPasses = []string{"simsync", "simatomic", "detrange", "chanyield", "detselect"}
 
 func cesiumUnit(name string, engines ...string) unit {
 	return unit{
@@ -178,5 +178,42 @@ var properties = map[string]*propDef{
 		},
 		RequiredProbes: []string{"frames_received", "completeness_checked", "unauthorized_write_observed", "resubscribe_or_disconnect_during_writes", "slow_consumer", "persisted_equals_authorized", "yield_chan"},
 		Units: []unit{cesiumUnit("cesium-stream", "c20")},
+	},
+	"C06": {
+		Level: "exploration",
+		Rule: "engine kvcore: event sequences over 2-4 simulated nodes and 1-4 keys: local set/delete at the key's leaseholder (real version assigner + persist), adversarially injected operations with explicit (version, leaseholder), and deliveries of arbitrary batches (reordered, duplicated, stale) of already created operations to a node's real ingress segment; afterwards every node is delivered every operation it has not seen (per-node random order). non-trivial = >=2 operations and at least one duplicate or stale delivery; distinct = hash of the event shape || engine cluster: 2-4 whole aspen nodes in one synctest bubble, every goroutine under the seeded scheduler; scripts of set/delete through any node, sleeps, partitions/heals and restarts with a per-case network profile (loss, lost replies, duplication of gossip kinds, delay); after the script faults stop and the nodes must agree within 20 s of virtual time on the latest acknowledged write per key; stored versions are polled after every event and must never regress. non-trivial = >=2 writes",
+		Real:  []string{"aspen/internal/kv: filterPersist/supersedes, versionAssigner, persist, digests (operation.go, version.go), x/go/kv + pebble in-memory engine — real code, harness compiled into the package via -overlay", "engine cluster: aspen.Open/Close, cluster (pledge, gossip, store), the whole kv pipeline (plumber, confluence, signal, observe), start-up recovery, x/go/kv/memkv (in-memory pebble), aspen/transport/mock + freighter/go/mock — all real code with sync/atomic/channel/select/map-range points instrumented by the overlay"},
+		Stub:  []string{"engine kvcore: plumber wiring, goroutines, transports and gossip timers of the kv pipeline are replaced by the simulator delivering TxRequests (message tier)", "engine cluster: the network is the repository's in-memory transport wrapped by the harness's fault-injecting clients (no sockets, no gRPC); the recovery stream is not wrapped; disks are in-memory pebble engines that survive a node restart (no disk faults)"},
+		Assumptions: []string{
+			"reference: per key the operation with the highest (version, leaseholder) wins; two distinct operations never share (key, version, leaseholder)",
+			"after every delivery the stored (version, leaseholder) of every key must not decrease; after all nodes received the same set they must hold the winner's value/deletion and digest",
+			"cluster: a client writes through a node only once that node knows the key (leases are not transferable); a write whose RPC failed may or may not have been applied; unary RPCs are never duplicated by the network",
+			"cluster: stalls attributed to the recorded known findings are identified from the recorded message log (lagging node never offered the newest version and every holder had the documented RecoveryThreshold of feedback, or was restarted)",
+		},
+		RequiredProbes: []string{"local_write", "duplicate_delivery", "stale_delivery_rejected", "equal_version_different_leaseholder", "write_ok", "write_failed_under_faults"},
+		Units: []unit{{
+			Name: "aspen-kvcore", Module: "aspen", Package: "./internal/kv", Passes: []string{"detrange"}, Engines: []string{"kvcore"},
+			QuickBudget: 15 * time.Second, QuickWorkers: 8, ThoroughBudget: 8 * time.Minute, ThoroughWorkers: 16,
+		}, {
+			Name: "aspen-cluster", Module: "aspen", Package: ".", Passes: allPasses, Engines: []string{"cluster"},
+			QuickBudget: 25 * time.Second, QuickWorkers: 8, ThoroughBudget: 15 * time.Minute, ThoroughWorkers: 16,
+		}},
+	},
+	"C13": {
+		Level: "exploration",
+		Rule: "same event sequences as C06's kvcore engine; the ingress segment's accepted output (the only thing forwarded to the persist splitter and from there to observers) is compared after every delivery with the list of deliveries that change the node's stored state, and every (key, version, leaseholder) may appear in it at most once per node || engine cluster: C06's whole-node scripts with an unfiltered and a host-leaseholder-filtered subscriber on every node (re-attached after restarts): no written value notified twice on a node, never an older write after a newer one of the same key, filtered stream a subsequence of the unfiltered one",
+		Real:  []string{"aspen/internal/kv: filterPersist/supersedes and its accepted/rejected routing — real code", "engine cluster: the whole kv pipeline including persistSplitter, ObservableSubscriber, observe.Async and DB.OnChange/NewObservable on complete nodes — real code under the seeded scheduler"},
+		Stub:  []string{"engine kvcore: observer fan-out (persistSplitter, ObservableSubscriber) is not run: the accepted output is observed directly at the segment boundary", "engine cluster: network = in-memory transport wrapped by fault-injecting clients; disks = in-memory pebble"},
+		Assumptions: []string{
+			"an observer that keeps up is notified of exactly what the ingress segment accepts (kv.go routes only the accepted output to the splitter)",
+		},
+		RequiredProbes: []string{"duplicate_delivery", "stale_delivery_rejected", "observers_checked"},
+		Units: []unit{{
+			Name: "aspen-kvcore", Module: "aspen", Package: "./internal/kv", Passes: []string{"detrange"}, Engines: []string{"kvcore"},
+			QuickBudget: 15 * time.Second, QuickWorkers: 8, ThoroughBudget: 8 * time.Minute, ThoroughWorkers: 16,
+		}, {
+			Name: "aspen-cluster", Module: "aspen", Package: ".", Passes: allPasses, Engines: []string{"cluster"},
+			QuickBudget: 25 * time.Second, QuickWorkers: 8, ThoroughBudget: 15 * time.Minute, ThoroughWorkers: 16,
+		}},
 	},
 }
